@@ -27,7 +27,8 @@ type BarSpec struct {
 	Prio      *int      `json:"prio,omitempty"`
 	Rm        bool      `json:"rm,omitempty"`
 	NoPop     bool      `json:"nopop,omitempty"`
-	After     int       `json:"after"` // spec index of the predecessor, -1 = none
+	After     int       `json:"after"`            // spec index of the predecessor, -1 = none
+	DupID     int       `json:"dup_id,omitempty"` // > 0: the bar gets a user-chosen id that another bar has too
 	Filler    string    `json:"filler"`
 	FailAt    int       `json:"fail_at,omitempty"`     // k-th Fill call fails (1-based, 0 = never)
 	Ext       int       `json:"ext,omitempty"`         // extender lines
